@@ -2226,8 +2226,8 @@ Proof.
   - destruct (bv_value b) as [rhs|] eqn:Vb.
     + destruct (bv_value_shape w b rhs Nb Vb) as (_ & _ & Zb). rewrite Zb. destruct rhs as [|p|p].
       * inversion E; subst. unfold bvmod. rewrite Z.add_0_r, Z.mod_small by lia. now apply bv_res_arg.
-      * inversion E; subst. apply bv_res_node; auto; try exact Logic.I.
-      * inversion E; subst. apply bv_res_node; auto; try exact Logic.I.
+      * inversion E; subst. rewrite <- Zb. apply bv_res_node; auto; try exact Logic.I.
+      * inversion E; subst. rewrite <- Zb. apply bv_res_node; auto; try exact Logic.I.
     + inversion E; subst. apply bv_res_node; auto; try exact Logic.I.
 Qed.
 Lemma r_bv_mul_sound w a b r : 0 < w -> bvterm w a -> bvterm w b -> r_bv_mul w a b = Some r ->
@@ -2281,10 +2281,10 @@ Proof.
     + inversion E; subst. apply bv_res_node; auto; try exact Logic.I. cbn. unfold bv_urem. now rewrite (proj2 (Z.eqb_neq _ _) Hr0).
   - destruct (bv_value a) as [lhs|] eqn:Va.
     + destruct (bv_value_shape w a lhs Na Va) as (_ & RA & Za). rewrite Za. destruct lhs as [|p|p].
-      * unfold bv_urem. replace (if bvzI b =? 0 then 0 else 0 mod bvzI b) with 0 by (destruct (bvzI b =? 0); [auto | now rewrite Z.mod_0_l by (intros H; rewrite H in *; discriminate)]).
+      * unfold bv_urem. replace (if bvzI b =? 0 then 0 else 0 mod bvzI b) with 0 by (rewrite Zmod_0_l; destruct (bvzI b =? 0); reflexivity).
         now apply bv_res_mk.
-      * inversion E; subst. apply bv_res_node; auto; try exact Logic.I.
-      * inversion E; subst. apply bv_res_node; auto; try exact Logic.I.
+      * inversion E; subst. rewrite <- Za. apply bv_res_node; auto; try exact Logic.I.
+      * inversion E; subst. rewrite <- Za. apply bv_res_node; auto; try exact Logic.I.
     + inversion E; subst. apply bv_res_node; auto; try exact Logic.I.
 Qed.
 Lemma r_bv_sub_sound w a b r : 0 < w -> bvterm w a -> bvterm w b -> r_bv_sub w a b = Some r ->
@@ -2318,15 +2318,15 @@ Proof.
   - destruct (bv_value_shape w b rhs Nb Vb) as (_ & [R0 R1] & Zb). rewrite Zb.
     destruct (Z.eqb_spec rhs 0) as [->|_].
     { inversion E; subst. rewrite (proj2 (Z.leb_gt w 0)) by lia. unfold bvmod. rewrite Z.mul_1_r, Z.mod_small by (cbn; lia). now apply bv_res_arg. }
-    destruct (w <=? rhs); [now apply bv_res_mk|].
+    destruct (w <=? rhs) eqn:Ew; [now apply bv_res_mk|].
     destruct (bv_value a) as [v|] eqn:Va.
     + destruct (bv_value_shape w a v Na Va) as (_ & _ & ->). rewrite shl_fold in E by lia. now apply bv_res_mk.
-    + inversion E; subst. apply bv_res_node; auto; try exact Logic.I.
+    + inversion E; subst. apply bv_res_node; auto; try exact Logic.I. cbn. unfold bv_shl. now rewrite Ew.
   - destruct (bv_value a) as [v|] eqn:Va.
     + destruct (bv_value_shape w a v Na Va) as (_ & _ & Za). destruct v as [|p|p].
       * inversion E; subst. rewrite Za. replace (if w <=? bvzI b then 0 else bvmod w (0 * 2 ^ bvzI b)) with 0.
         { rewrite <- Za. now apply bv_res_arg. }
-        destruct (w <=? bvzI b); auto. unfold bvmod. rewrite Z.mul_0_l, Z.mod_0_l; auto. pose proof (pow2_pos w ltac:(lia)); lia.
+        destruct (w <=? bvzI b); auto.
       * inversion E; subst. apply bv_res_node; auto; try exact Logic.I.
       * inversion E; subst. apply bv_res_node; auto; try exact Logic.I.
     + inversion E; subst. apply bv_res_node; auto; try exact Logic.I.
@@ -2340,11 +2340,11 @@ Proof.
   - destruct (bv_value_shape w b rhs Nb Vb) as (_ & [R0 R1] & Zb). rewrite Zb.
     destruct (Z.eqb_spec rhs 0) as [->|_].
     { inversion E; subst. rewrite (proj2 (Z.leb_gt w 0)) by lia. rewrite Z.div_1_r. now apply bv_res_arg. }
-    destruct (w <=? rhs); [now apply bv_res_mk|].
+    destruct (w <=? rhs) eqn:Ew; [now apply bv_res_mk|].
     destruct (bv_value a) as [v|] eqn:Va.
     + destruct (bv_value_shape w a v Na Va) as (_ & RA & ->). rewrite shr_fold in E by lia.
       rewrite Z.mod_small in E by (apply div_range; auto; apply pow2_pos; lia). now apply bv_res_mk.
-    + inversion E; subst. apply bv_res_node; auto; try exact Logic.I.
+    + inversion E; subst. apply bv_res_node; auto; try exact Logic.I. cbn. unfold bv_lshr. now rewrite Ew.
   - destruct (bv_value a) as [v|] eqn:Va.
     + destruct (bv_value_shape w a v Na Va) as (_ & _ & Za). destruct v as [|p|p].
       * inversion E; subst. rewrite Za. replace (if w <=? bvzI b then 0 else 0 / 2 ^ bvzI b) with 0 by (destruct (w <=? bvzI b); auto).
@@ -2353,8 +2353,123 @@ Proof.
       * inversion E; subst. apply bv_res_node; auto; try exact Logic.I.
     + inversion E; subst. apply bv_res_node; auto; try exact Logic.I.
 Qed.
+Lemma top_bvc w a v w0 : bvterm w a -> top a = OBVC v w0 -> a = TBVC v w /\ w0 = w /\ in_range w v /\ bvzI a = v.
+Proof.
+  intros Na Et. assert (Hv : bv_value a = Some v) by (unfold bv_value; now rewrite Et).
+  destruct (bv_value_shape w a v Na Hv) as (-> & R & Z). cbn in Et. inversion Et; subst. auto.
+Qed.
+Lemma r_bv_concat_sound wa wb w a b r : 0 < w -> w = wa + wb -> bvterm wa a -> bvterm wb b ->
+  r_bv_concat a b = Some r -> bv_res w r (bvzI a * 2 ^ wb + bvzI b).
+Proof.
+  intros Hw Ew Na Nb E. unfold r_bv_concat in E.
+  assert (Hnode : Some (mk_bvconcat a b) = Some r -> bv_res w r (bvzI a * 2 ^ wb + bvzI b)).
+  { clear E. intros E. inversion E; subst. unfold mk_bvconcat.
+    rewrite (bv_width_ok a wa (proj1 Na) (proj2 Na)), (bv_width_ok b wb (proj1 Nb) (proj2 Nb)).
+    destruct Na as [Oa Ta]. destruct Nb as [Ob Tb]. split; [split|].
+    - apply okt_intro; [|repeat constructor; auto]. cbn. now rewrite (proj2 (Z.ltb_lt 0 (wa + wb)) Hw).
+    - rewrite tc_tcs. cbn [tcs]. rewrite Ta, Tb. cbn. now rewrite Z.eqb_refl.
+    - rewrite eval_plain by reflexivity. cbn [map op_sem].
+      destruct (bvterm_eval wa a (conj Oa Ta)) as [-> _]. destruct (bvterm_eval wb b (conj Ob Tb)) as [-> _]. reflexivity. }
+  destruct (top a) eqn:Ea; try exact (Hnode E). destruct (top b) eqn:Eb; try exact (Hnode E).
+  destruct (top_bvc wa a _ _ Na Ea) as (_ & -> & _ & ->). destruct (top_bvc wb b _ _ Nb Eb) as (_ & -> & _ & ->).
+  subst w. replace (v * 2 ^ wb + v0) with (2 ^ wb * v + v0) by lia. rewrite (Z.add_comm wa wb). apply bv_res_mk; [lia | exact E].
+Qed.
+Lemma r_bv_comp_sound wa a b r : bvterm wa a -> bvterm wa b -> r_bv_comp a b = Some r ->
+  bv_res 1 r (if bvzI a =? bvzI b then 1 else 0).
+Proof.
+  intros Na Nb E. unfold r_bv_comp in E. destruct (term_eqb a b) eqn:Eq.
+  - apply term_eqb_sound in Eq. subst b. rewrite Z.eqb_refl. apply bv_res_mk; auto; lia.
+  - destruct (is_bv_constant a && is_bv_constant b) eqn:C.
+    + apply andb_true_iff in C. destruct C as [Ca Cb]. unfold is_bv_constant in Ca, Cb.
+      destruct (top a) eqn:Ea; try discriminate. destruct (top b) eqn:Eb; try discriminate.
+      destruct (top_bvc wa a _ _ Na Ea) as (-> & _ & _ & ->). destruct (top_bvc wa b _ _ Nb Eb) as (-> & _ & _ & ->).
+      destruct (Z.eqb_spec v v0) as [->|_]; [rewrite (proj2 (term_eqb_eq _ _) eq_refl) in Eq; discriminate|].
+      apply bv_res_mk; auto; lia.
+    + inversion E; subst. unfold mk_bvcomp. destruct Na as [Oa Ta]. destruct Nb as [Ob Tb]. split; [split|].
+      * apply okt_intro; [reflexivity | repeat constructor; auto].
+      * rewrite tc_tcs. cbn [tcs]. rewrite Ta, Tb. cbn. now rewrite Z.eqb_refl.
+      * rewrite eval_plain by reflexivity. cbn [map op_sem].
+        destruct (bvterm_eval wa a (conj Oa Ta)) as [-> _]. destruct (bvterm_eval wa b (conj Ob Tb)) as [-> _]. reflexivity.
+Qed.
+Lemma bterm_bvrel k wa a b : (k = BUlt \/ k = BUle) -> bvterm wa a -> bvterm wa b -> bterm (T (OBVRel k) [a; b]).
+Proof.
+  intros Hk [Oa Ta] [Ob Tb]. split.
+  - apply okt_intro; [destruct Hk as [-> | ->]; reflexivity | repeat constructor; auto].
+  - rewrite tc_tcs. cbn [tcs]. rewrite Ta, Tb. cbn. now rewrite Z.eqb_refl.
+Qed.
+Lemma r_bv_ult_sound wa a b r : bvterm wa a -> bvterm wa b -> r_bv_ult a b = Some r ->
+  bterm r /\ bv I r = (bvzI a <? bvzI b).
+Proof.
+  intros Na Nb E. unfold r_bv_ult in E.
+  destruct (bvterm_eval wa a Na) as [Ea [A0 A1]]. destruct (bvterm_eval wa b Nb) as [Eb [B0 B1]].
+  assert (Hnode : bterm (mk_bvrel BUlt a b) /\ bv I (mk_bvrel BUlt a b) = (bvzI a <? bvzI b)).
+  { split; [apply (bterm_bvrel BUlt wa); auto|]. unfold bv, mk_bvrel. rewrite eval_plain by reflexivity. cbn [map op_sem]. now rewrite Ea, Eb. }
+  destruct (term_eqb a b) eqn:Eq.
+  - apply term_eqb_sound in Eq. subst b. inversion E; subst. split; [apply bterm_TBoolC|]. rewrite Z.ltb_irrefl. reflexivity.
+  - destruct (bv_value b) as [rhs|] eqn:Vb.
+    + destruct (bv_value_shape wa b rhs Nb Vb) as (_ & _ & Zb). rewrite Zb.
+      destruct (Z.eqb_spec rhs 0) as [->|_].
+      { inversion E; subst. split; [apply bterm_TBoolC|]. cbn. symmetry. apply Z.ltb_ge. lia. }
+      destruct (bv_value a) as [lhs|] eqn:Va.
+      * destruct (bv_value_shape wa a lhs Na Va) as (_ & _ & ->). inversion E; subst. split; [apply bterm_TBoolC | reflexivity].
+      * inversion E; subst. exact Hnode.
+    + inversion E; subst. exact Hnode.
+Qed.
+Lemma r_bv_ule_sound wa a b r : bvterm wa a -> bvterm wa b -> r_bv_ule a b = Some r ->
+  bterm r /\ bv I r = (bvzI a <=? bvzI b).
+Proof.
+  intros Na Nb E. unfold r_bv_ule in E.
+  destruct (bvterm_eval wa a Na) as [Ea [A0 A1]]. destruct (bvterm_eval wa b Nb) as [Eb [B0 B1]].
+  assert (Hnode : bterm (mk_bvrel BUle a b) /\ bv I (mk_bvrel BUle a b) = (bvzI a <=? bvzI b)).
+  { split; [apply (bterm_bvrel BUle wa); auto|]. unfold bv, mk_bvrel. rewrite eval_plain by reflexivity. cbn [map op_sem]. now rewrite Ea, Eb. }
+  destruct (term_eqb a b) eqn:Eq.
+  - apply term_eqb_sound in Eq. subst b. inversion E; subst. split; [apply bterm_TBoolC|]. rewrite Z.leb_refl. reflexivity.
+  - destruct (bv_value a) as [lhs|] eqn:Va.
+    + destruct (bv_value_shape wa a lhs Na Va) as (_ & _ & Za). rewrite Za.
+      destruct (Z.eqb_spec lhs 0) as [->|_].
+      { inversion E; subst. split; [apply bterm_TBoolC|]. cbn. symmetry. apply Z.leb_le. lia. }
+      destruct (bv_value b) as [rhs|] eqn:Vb.
+      * destruct (bv_value_shape wa b rhs Nb Vb) as (_ & _ & ->). inversion E; subst. split; [apply bterm_TBoolC | reflexivity].
+      * inversion E; subst. exact Hnode.
+    + inversion E; subst. exact Hnode.
+Qed.
+Lemma r_bv_tonatural_sound wa a r : bvterm wa a -> r_bv_tonatural a = Some r ->
+  nterm TInt r /\ eval I r = VInt (bvzI a).
+Proof.
+  intros Na E. unfold r_bv_tonatural in E. destruct (bvterm_eval wa a Na) as [Ea _].
+  destruct (bv_value a) as [v|] eqn:Va.
+  - destruct (bv_value_shape wa a v Na Va) as (_ & _ & ->). inversion E; subst. split; [split; reflexivity | reflexivity].
+  - inversion E; subst. destruct Na as [Oa Ta]. split; [split|].
+    + apply okt_intro; [reflexivity | repeat constructor; auto].
+    + rewrite tc_tcs. cbn [tcs]. rewrite Ta. reflexivity.
+    + rewrite eval_plain by reflexivity. cbn [map op_sem]. now rewrite Ea.
+Qed.
 Close Scope Z_scope.
 End Rules3.
+
+(* typing of bit-vector nodes *)
+Definition bv_generic (k : bvop) : Prop := match k with BConcat | BComp => False | _ => True end.
+Lemma bv_args_generic k w args ty : bv_generic k -> okt (T (OBV k w) args) = true -> tc (T (OBV k w) args) = Some ty ->
+  ty = TBV w /\ Forall (bvterm w) args.
+Proof.
+  intros Hk Hok Htc. pose proof (okt_args _ _ Hok) as Fa. destruct (tc_inv _ _ _ Htc) as (tys & Ht & Hr).
+  assert (G : ty = TBV w /\ Forall (fun x => x = TBV w) tys).
+  { destruct k; try contradiction; cbn in Hr;
+      (destruct (forallb (fun a => ty_eqb a (TBV w)) tys) eqn:Ef; [|discriminate]); inversion Hr; split; auto;
+      apply Forall_forall; intros x Hx; rewrite forallb_forall in Ef; apply ty_eqb_eq; auto. }
+  destruct G as [-> Hall]. split; auto. pose proof (tcs_Forall2 _ _ Ht) as F2. clear - Fa F2 Hall.
+  induction F2 as [|a t r tr Ha Hr IH]; constructor.
+  - inversion Fa; subst. inversion Hall; subst. split; auto.
+  - inversion Fa; subst. inversion Hall; subst. auto.
+Qed.
+Lemma bv_args_pair o a b ty : okt (T o [a; b]) = true -> tc (T o [a; b]) = Some ty ->
+  exists ta tb, okt a = true /\ okt b = true /\ tc a = Some ta /\ tc b = Some tb /\ tc_rule o [ta; tb] = Some ty.
+Proof.
+  intros Hok Htc. pose proof (okt_args _ _ Hok) as Fa. destruct (tc_inv _ _ _ Htc) as (tys & Ht & Hr).
+  pose proof (tcs_Forall2 _ _ Ht) as F2.
+  inversion F2 as [|? ta ? ? Ha F2']; subst. inversion F2' as [|? tb ? ? Hb F2'']; subst. inversion F2''; subst.
+  inversion Fa as [|? ? Oa Fa']; subst. inversion Fa' as [|? ? Ob _]; subst. exists ta, tb. auto.
+Qed.
 
 (* ================================================================== one node, stage 1 *)
 Lemma tys_eqb_length a b : tys_eqb a b = true -> List.length a = List.length b.
@@ -2474,11 +2589,85 @@ Proof.
     inversion Fa as [|? ? Oa ?]; subst.
     destruct (r_toreal_sound I Hwf a r (conj Oa Ha) E) as [[O Tc] Ev]. repeat split; auto.
   - inversion E; subst. exact Hid.
+  - (* bv operators *)
+    apply andb_true_iff in Hn. destruct Hn as [Hw Hk]. apply Z.ltb_lt in Hw.
+    assert (Hres : forall x, bv_res I w r x -> eval I (T (OBV k w) args) = VBV w x -> ty = TBV w -> res_ok I r ty (eval I (T (OBV k w) args))).
+    { intros x [[O Tc] Ev] Ee ->. rewrite Ee. repeat split; auto. }
+    destruct k; try discriminate Hk; cbn [rule] in E.
+    + destruct (bv_args_generic BNot w args ty Logic.I Hok Htc) as [Ety F]. destruct args as [|a [|? ?]]; try discriminate. inversion F as [|? ? Na _]; subst.
+      eapply Hres; [exact (r_bv_not_sound I Hwf w a r Hw Na E) | now rewrite (bvz_bvun I Hwf _ w a Na) | reflexivity].
+    + destruct (bv_args_generic BAnd w args ty Logic.I Hok Htc) as [Ety F]. destruct args as [|a [|b [|? ?]]]; try discriminate.
+      inversion F as [|? ? Na F']; subst. inversion F' as [|? ? Nb _]; subst.
+      eapply Hres; [exact (r_bv_and_sound I Hwf w a b r Hw Na Nb E) | now rewrite (bvz_bvop I Hwf _ w a b Na Nb) | reflexivity].
+    + destruct (bv_args_generic BOr w args ty Logic.I Hok Htc) as [Ety F]. destruct args as [|a [|b [|? ?]]]; try discriminate.
+      inversion F as [|? ? Na F']; subst. inversion F' as [|? ? Nb _]; subst.
+      eapply Hres; [exact (r_bv_or_sound I Hwf w a b r Hw Na Nb E) | now rewrite (bvz_bvop I Hwf _ w a b Na Nb) | reflexivity].
+    + destruct (bv_args_generic BXor w args ty Logic.I Hok Htc) as [Ety F]. destruct args as [|a [|b [|? ?]]]; try discriminate.
+      inversion F as [|? ? Na F']; subst. inversion F' as [|? ? Nb _]; subst.
+      eapply Hres; [exact (r_bv_xor_sound I Hwf w a b r Hw Na Nb E) | now rewrite (bvz_bvop I Hwf _ w a b Na Nb) | reflexivity].
+    + (* concat *)
+      destruct args as [|a [|b [|? ?]]]; try discriminate.
+      destruct (bv_args_pair _ a b ty Hok Htc) as (ta & tb & Oa & Ob & Ta & Tb & Hr2).
+      cbn in Hr2. destruct ta as [| | | |wa| | |]; try discriminate. destruct tb as [| | | |wb| | |]; try discriminate.
+      destruct (Z.eqb_spec (wa + wb) w) as [Ew|]; [|discriminate]. inversion Hr2; subst ty.
+      eapply Hres; [exact (r_bv_concat_sound I Hwf wa wb w a b r Hw (eq_sym Ew) (conj Oa Ta) (conj Ob Tb) E) | | reflexivity].
+      rewrite eval_plain by reflexivity. cbn [map op_sem].
+      destruct (bvterm_eval I Hwf wa a (conj Oa Ta)) as [-> _]. destruct (bvterm_eval I Hwf wb b (conj Ob Tb)) as [-> _]. cbn. now rewrite Ew.
+    + destruct (bv_args_generic BNeg w args ty Logic.I Hok Htc) as [Ety F]. destruct args as [|a [|? ?]]; try discriminate. inversion F as [|? ? Na _]; subst.
+      eapply Hres; [exact (r_bv_neg_sound I Hwf w a r Hw Na E) | now rewrite (bvz_bvun I Hwf _ w a Na) | reflexivity].
+    + destruct (bv_args_generic BAdd w args ty Logic.I Hok Htc) as [Ety F]. destruct args as [|a [|b [|? ?]]]; try discriminate.
+      inversion F as [|? ? Na F']; subst. inversion F' as [|? ? Nb _]; subst.
+      eapply Hres; [exact (r_bv_add_sound I Hwf w a b r Hw Na Nb E) | now rewrite (bvz_bvop I Hwf _ w a b Na Nb) | reflexivity].
+    + destruct (bv_args_generic BSub w args ty Logic.I Hok Htc) as [Ety F]. destruct args as [|a [|b [|? ?]]]; try discriminate.
+      inversion F as [|? ? Na F']; subst. inversion F' as [|? ? Nb _]; subst.
+      eapply Hres; [exact (r_bv_sub_sound I Hwf w a b r Hw Na Nb E) | now rewrite (bvz_bvop I Hwf _ w a b Na Nb) | reflexivity].
+    + destruct (bv_args_generic BMul w args ty Logic.I Hok Htc) as [Ety F]. destruct args as [|a [|b [|? ?]]]; try discriminate.
+      inversion F as [|? ? Na F']; subst. inversion F' as [|? ? Nb _]; subst.
+      eapply Hres; [exact (r_bv_mul_sound I Hwf w a b r Hw Na Nb E) | now rewrite (bvz_bvop I Hwf _ w a b Na Nb) | reflexivity].
+    + destruct (bv_args_generic BUdiv w args ty Logic.I Hok Htc) as [Ety F]. destruct args as [|a [|b [|? ?]]]; try discriminate.
+      inversion F as [|? ? Na F']; subst. inversion F' as [|? ? Nb _]; subst.
+      eapply Hres; [exact (r_bv_udiv_sound I Hwf w a b r Hw Na Nb E) | now rewrite (bvz_bvop I Hwf _ w a b Na Nb) | reflexivity].
+    + destruct (bv_args_generic BUrem w args ty Logic.I Hok Htc) as [Ety F]. destruct args as [|a [|b [|? ?]]]; try discriminate.
+      inversion F as [|? ? Na F']; subst. inversion F' as [|? ? Nb _]; subst.
+      eapply Hres; [exact (r_bv_urem_sound I Hwf w a b r Hw Na Nb E) | now rewrite (bvz_bvop I Hwf _ w a b Na Nb) | reflexivity].
+    + destruct (bv_args_generic BLshl w args ty Logic.I Hok Htc) as [Ety F]. destruct args as [|a [|b [|? ?]]]; try discriminate.
+      inversion F as [|? ? Na F']; subst. inversion F' as [|? ? Nb _]; subst.
+      eapply Hres; [exact (r_bv_lshl_sound I Hwf w a b r Hw Na Nb E) | now rewrite (bvz_bvop I Hwf _ w a b Na Nb) | reflexivity].
+    + destruct (bv_args_generic BLshr w args ty Logic.I Hok Htc) as [Ety F]. destruct args as [|a [|b [|? ?]]]; try discriminate.
+      inversion F as [|? ? Na F']; subst. inversion F' as [|? ? Nb _]; subst.
+      eapply Hres; [exact (r_bv_lshr_sound I Hwf w a b r Hw Na Nb E) | now rewrite (bvz_bvop I Hwf _ w a b Na Nb) | reflexivity].
+    + (* comp *)
+      apply andb_true_iff in Hk. destruct Hk as [_ Hw1]. apply Z.eqb_eq in Hw1. subst w.
+      destruct args as [|a [|b [|? ?]]]; try discriminate. unfold bin in E.
+      destruct (bv_args_pair _ a b ty Hok Htc) as (ta & tb & Oa & Ob & Ta & Tb & Hr2).
+      cbn in Hr2. destruct (ty_eqb ta tb && is_bv ta) eqn:Et; [|discriminate]. inversion Hr2; subst ty.
+      apply andb_true_iff in Et. destruct Et as [E1 E2]. apply ty_eqb_eq in E1. subst tb. destruct ta as [| | | |wa| | |]; try discriminate.
+      eapply Hres; [exact (r_bv_comp_sound I Hwf wa a b r (conj Oa Ta) (conj Ob Tb) E) | | reflexivity].
+      rewrite eval_plain by reflexivity. cbn [map op_sem].
+      destruct (bvterm_eval I Hwf wa a (conj Oa Ta)) as [-> _]. destruct (bvterm_eval I Hwf wa b (conj Ob Tb)) as [-> _]. reflexivity.
+  - (* bv relations *)
+    destruct args as [|a [|b [|? ?]]]; try (destruct k; discriminate).
+    destruct (bv_args_pair _ a b ty Hok Htc) as (ta & tb & Oa & Ob & Ta & Tb & Hr2).
+    pose proof (bv_to_bool_out _ _ Hr2) as ->. cbn in Hr2. destruct ta as [| | | |wa| | |]; try discriminate.
+    destruct tb as [| | | |wb| | |]; try discriminate. cbn in Hr2. destruct (Z.eqb_spec wa wb) as [<-|]; [|discriminate].
+    destruct (bvterm_eval I Hwf wa a (conj Oa Ta)) as [Ea _]. destruct (bvterm_eval I Hwf wa b (conj Ob Tb)) as [Eb _].
+    destruct k; try discriminate Hn; cbn [rule] in E.
+    + destruct (r_bv_ult_sound I Hwf wa a b r (conj Oa Ta) (conj Ob Tb) E) as [B1 B2].
+      rewrite eval_plain by reflexivity. cbn [map op_sem]. rewrite Ea, Eb. cbn. apply res_ok_bool; auto.
+    + destruct (r_bv_ule_sound I Hwf wa a b r (conj Oa Ta) (conj Ob Tb) E) as [B1 B2].
+      rewrite eval_plain by reflexivity. cbn [map op_sem]. rewrite Ea, Eb. cbn. apply res_ok_bool; auto.
   - (* div *) contradiction.
   - (* pow *)
     destruct args as [|a [|e rest]]; try discriminate.
     destruct rest; [|destruct e as [[] [|]]; discriminate Hn].
     now apply r_pow_sound.
+  - (* bv2nat *)
+    destruct args as [|a [|? ?]]; try discriminate.
+    inversion F2 as [|? ta ? ? Ha F2']; subst. inversion F2'; subst. inversion Fa as [|? ? Oa _]; subst.
+    cbn in Hr. destruct ta as [| | | |wa| | |]; try discriminate. inversion Hr; subst ty.
+    destruct (r_bv_tonatural_sound I Hwf wa a r (conj Oa Ha) E) as [[O Tc] Ev]. repeat split; auto.
+    rewrite Ev. rewrite eval_plain by reflexivity. cbn [map op_sem].
+    destruct (bvterm_eval I Hwf wa a (conj Oa Ha)) as [-> _]. reflexivity.
   }
   destruct o; try (apply res_weaken, Hnd; exact Logic.I).
   (* div *)
@@ -2640,3 +2829,12 @@ Proof.
   split; [reflexivity|]. split; [reflexivity|]. split; [|reflexivity].
   cbn. repeat split; auto. intros H. discriminate H.
 Qed.
+
+Definition ex_bv : term :=
+  let x := TSym "x" (TBV 8) in
+  T (OBVRel BUlt) [T (OBV BAdd 8) [x; TBVC 0 8];
+                   T (OBV BAnd 8) [TBVC 255 8; T (OBV BMul 8) [TBVC 3 8; T (OBV BLshl 8) [TBVC 5 8; TBVC 2 8]]]].
+Example sound_example_bv :
+  in_frag ex_bv = true /\ tc ex_bv = Some TBool /\ div_safe I0 ex_bv /\
+  simplify_opt no_oracle ex_bv = Some (T (OBVRel BUlt) [TSym "x" (TBV 8); TBVC 60 8]).
+Proof. split; [reflexivity|]. split; [reflexivity|]. split; [|reflexivity]. cbn. tauto. Qed.
